@@ -80,7 +80,7 @@ def offending_uses(uses):
 
 LEVEL = "proof"
 EX_FORMAT = "EX kind(0 global,1 legalizer,2 detailed) nrows (minX maxX minY maxY orient)* ncells (x y w h orient pol fixed obs)* m entries (global: x2 y2 in half units; legalizer: placed x y o; detailed: cellIndex x y o)"
-FR_FORMAT = "FR nrows (minX maxX minY maxY orient)* ncells (x y w h orient pol fixed obs)* nnets (npins (cell xo yo)* w2)* nruns (stage hascb pvar effort throwk)*  [pvar 0 valid capped, 1-6 invalid, 7 library defaults]"
+FR_FORMAT = "FR nrows (minX maxX minY maxY orient)* ncells (x y w h orient pol fixed obs)* nnets (npins (cell xo yo)* w2)* nruns (stage hascb pvar effort throwk)*  [pvar 0 valid capped, 1-6 invalid, 7 library defaults, 8-17 accepted boundary values (nbPasses 0, maxNbSteps 1, windows 1, ...: mkParams in harness/api.cpp)]"
 STAGE = {0: "global", 1: "legalize", 2: "detailed"}
 
 
@@ -253,7 +253,7 @@ def run(ctx):
                         "than the movable cells so that the mismatch exception is reached, detailed cellIndex in [-1, n-1] with repeats, global coordinates in half units); non-trivial = "
                         "the export changed the circuit and had a fixed cell to skip. stage runs: random circuits (1-12, 30% up to 30 cells; nets incl. pins on fixed cells; fixed cells "
                         "inside and outside rows; utilisation 15-110%), stage sequences {G, L, D, G-L-D, L-D, G-D}, 70% with callback, callback throwing at a random index, 12% invalid "
-                        "parameter sets, 20% library-default parameters (hundreds of callbacks), efforts 1-9; every callback state and the final state compared with the state before the call; "
+                        "parameter sets, 12% parameter sets at the boundary of what check() accepts (nbPasses 0, maxNbSteps 1, windows 1, ...), 20% library-default parameters (hundreds of callbacks), efforts 1-9; every callback state and the final state compared with the state before the call; "
                         "non-trivial = a cell moved and the circuit has a fixed cell; distinct = distinct case lines",
                 "no_outcome_stage_cases": len(crashed_fr),
                 "static_access_table": {"uses": len(uses or []), "function_definitions_scanned": nfun,
